@@ -48,6 +48,9 @@ func (e *Engine) replay(fr *FuncResult, r oblResult, outDir string) (verdict, ou
 			return ad.run(e, fr, r, outDir)
 		}
 	}
+	if e.scalarReplayable(fr.Key) {
+		return replayScalar(e, fr, r, outDir)
+	}
 	return "not-replayable", "no replay adapter for " + calleeShort(fr.Key), ""
 }
 
